@@ -31,10 +31,22 @@ export { generateHashFromString, generateHashFromNumbers } from "./hash.js";
 
 const JSON_PROTO = Object.getPrototypeOf({});
 
-function deepmergeConstructor(options: any) {
-  function isNotPrototypeKey(value: any) {
-    return value !== "constructor" && value !== "prototype" && value !== "__proto__";
+// Only own properties of the input count: `toString`, `valueOf`, `constructor` ... are inherited by every object.
+const ownValue = (input: any, key: string): unknown =>
+  Object.prototype.hasOwnProperty.call(input, key) ? input[key] : undefined;
+// `acc["__proto__"] = v` would replace the prototype instead of creating the property.
+const setOwnValue = (acc: any, key: any, value: unknown): void => {
+  if (key === "__proto__") {
+    Object.defineProperty(acc, key, { value, enumerable: true, writable: true, configurable: true });
+  } else {
+    acc[key] = value;
   }
+};
+
+function deepmergeConstructor(options: any) {
+  // the merged values are projections of validated data: keys named like members of Object.prototype are ordinary data
+  // keys; they are read and written as own properties (never through the prototype chain)
+  const hasOwn = (value: any, key: string) => Object.prototype.hasOwnProperty.call(value, key);
 
   function cloneArray(value: any) {
     let i = 0;
@@ -57,7 +69,7 @@ function deepmergeConstructor(options: any) {
     let i, il, key;
     for (i = 0, il = targetKeys.length; i < il; ++i) {
       //@ts-ignore
-      isNotPrototypeKey((key = targetKeys[i])) && (result[key] = clone(target[key]));
+      setOwnValue(result, (key = targetKeys[i]), clone(target[key]));
     }
     return result;
   }
@@ -145,34 +157,25 @@ function deepmergeConstructor(options: any) {
     const sourceKeys = getKeys(source);
     let i, il, key;
     for (i = 0, il = targetKeys.length; i < il; ++i) {
-      isNotPrototypeKey((key = targetKeys[i])) &&
-        sourceKeys.indexOf(key) === -1 &&
-        // @ts-ignore
-        (result[key] = clone(target[key]));
+      sourceKeys.indexOf((key = targetKeys[i])) === -1 && setOwnValue(result, key, clone(target[key]));
     }
 
     for (i = 0, il = sourceKeys.length; i < il; ++i) {
-      if (!isNotPrototypeKey((key = sourceKeys[i]))) {
-        continue;
-      }
-
-      if (key in target) {
+      key = sourceKeys[i];
+      if (hasOwn(target, key)) {
         if (targetKeys.indexOf(key) !== -1) {
           if (
             cloneProtoObject &&
             isMergeableObject(source[key]) &&
             Object.getPrototypeOf(source[key]) !== JSON_PROTO
           ) {
-            // @ts-ignore
-            result[key] = cloneProtoObject(source[key]);
+            setOwnValue(result, key, cloneProtoObject(source[key]));
           } else {
-            // @ts-ignore
-            result[key] = _deepmerge(target[key], source[key]);
+            setOwnValue(result, key, _deepmerge(target[key], source[key]));
           }
         }
       } else {
-        // @ts-ignore
-        result[key] = clone(source[key]);
+        setOwnValue(result, key, clone(source[key]));
       }
     }
     return result;
@@ -2220,7 +2223,7 @@ export class ObjectRuntype extends BaseRuntype {
       const configKeys = Object.keys(this.properties);
       for (const k of configKeys) {
         const validator = this.properties[k];
-        if (!validator.validate(ctx, input[k])) {
+        if (!validator.validate(ctx, ownValue(input, k))) {
           return false;
         }
       }
@@ -2269,7 +2272,7 @@ export class ObjectRuntype extends BaseRuntype {
     if (ctx.objectKeyOrder === "input") {
       for (const k of inputKeys) {
         if (hasOwn.call(this.properties, k)) {
-          acc[k] = this.properties[k].parseAfterValidation(ctx, input[k]);
+          setOwnValue(acc, k, this.properties[k].parseAfterValidation(ctx, input[k]));
           continue;
         }
 
@@ -2279,7 +2282,7 @@ export class ObjectRuntype extends BaseRuntype {
           if (isValid) {
             const itemParsed = p.value.parseAfterValidation(ctx, v);
             const keyParsed = p.key.parseAfterValidation(ctx, k);
-            acc[keyParsed as any] = itemParsed;
+            setOwnValue(acc, keyParsed, itemParsed);
           }
         }
       }
@@ -2292,7 +2295,7 @@ export class ObjectRuntype extends BaseRuntype {
         }
         const v = input[k];
         const itemParsed = this.properties[k].parseAfterValidation(ctx, v);
-        acc[k] = itemParsed;
+        setOwnValue(acc, k, itemParsed);
       }
 
       if (this.indexedPropertiesParser.length > 0) {
@@ -2304,7 +2307,7 @@ export class ObjectRuntype extends BaseRuntype {
             if (isValid) {
               const itemParsed = p.value.parseAfterValidation(ctx, v);
               const keyParsed = p.key.parseAfterValidation(ctx, k);
-              acc[keyParsed as any] = itemParsed;
+              setOwnValue(acc, keyParsed, itemParsed);
             }
           }
         }
@@ -2323,10 +2326,10 @@ export class ObjectRuntype extends BaseRuntype {
     const configKeys = Object.keys(this.properties);
 
     for (const k of configKeys) {
-      const ok = this.properties[k].validate(ctx, input[k]);
+      const ok = this.properties[k].validate(ctx, ownValue(input, k));
       if (!ok) {
         pushPath(ctx, k);
-        const arr2 = this.properties[k].reportDecodeError(ctx, input[k]);
+        const arr2 = this.properties[k].reportDecodeError(ctx, ownValue(input, k));
         acc.push(...arr2);
         popPath(ctx);
       }
